@@ -1,6 +1,7 @@
 import FimVerif.Model.Regex
 import FimVerif.Generated.Validators
 import FimVerif.Generated.EntryPoints
+import FimVerif.Model.JsonParse
 /-!
 Executable model of the validation done on every construction path (C16).
 
@@ -271,6 +272,25 @@ def jsonObj (cls : String) (dumpsOk : Bool) (len : Nat) : Res Unit :=
   match jsonMax.lookup cls with
   | none => throw "unmodelled"
   | some m => if !dumpsOk then throw "jsondata" else if jsonTooLong len m then throw "jsondata" else pure ()
+
+/-! ### JSON blobs with `json.loads` / `json.dumps` modelled (Model/JsonParse.lean `parse`, Model/Json.lean `render`)
+
+`jsonStr` / `jsonObj` above take validity and the dumped length as inputs computed by CPython; here they are computed by the
+model: `JParse.parse` is `json.loads` (None = JSONDecodeError), `JVal.render` is `json.dumps` with the default separators and
+ensure_ascii. Floats are carried as their lexeme, so object values with floats stay on the `jsonObj` path. -/
+
+/-- `JSONData(text)` for a str -/
+def jsonText (cls : String) (text : String) : Res Unit :=
+  jsonStr cls text.length (JParse.parse text).isSome
+
+/-- `JSONData(obj)` for a JSON-representable object: what is stored is the dumped text -/
+def jsonValue (cls : String) (j : JVal) : Res String :=
+  match jsonMax.lookup cls with
+  | none => throw "unmodelled"
+  | some m =>
+    match j with
+    | .null => pure (JVal.render (.obj []))         -- `data is None`: the empty object, no size check
+    | _ => if jsonTooLong (JVal.render j).length m then throw "jsondata" else pure (JVal.render j)
 
 /-! ### Entry points: which guards count, names of existing elements over histories, derived names
 
